@@ -134,6 +134,15 @@ def unbound_forms(orig: Sig, wrap: Sig, orig_name: str = "") -> List[Tuple[str, 
             out.append((p.name, "var-positional", "the original accepts *args; the substitute does not"))
         elif p.kind == VARKW and not wrap.has_varkw:
             out.append((p.name, "var-keyword", "the original accepts **kwargs; the substitute does not"))
+    # a positional slot that the substitute names after ANOTHER positional parameter of the original: the two agree on the
+    # keyword form and silently swap the positional one (f(q, k, v, bias) read as f(q, k, v, mask))
+    oidx = {p.name: i for i, p in enumerate(opos)}
+    for i, wp in enumerate(wpos):
+        if i < len(opos) and opos[i].name == "out":
+            continue    # jax.numpy accepts `out` only as None: whatever the substitute calls that slot receives None or the call is invalid in JAX
+        if i < len(opos) and wp.name != opos[i].name and wp.name in oidx and oidx[wp.name] != i:
+            out.append((wp.name, f"positional-order#{i}", f"positional argument {i} is `{opos[i].name}` in the original but the substitute binds it to `{wp.name}` "
+                        f"(the original's positional argument {oidx[wp.name]}): a positional call is accepted and read as a different argument"))
     # required extras of the wrapper
     onames = {p.name for p in orig.params}
     for j, wp in enumerate(wrap.params):
